@@ -403,6 +403,11 @@ pub fn run(tier: Tier) -> Result<Report, String> {
         "f = #'int { =0 => 9 | [~, 1] __integer_subtract__ ^ 5 }, 2 f",
         "f = #'int { =0 => 9 | [~, 1] __integer_subtract__ ^, 5 }, 2 f",
         "f = #'int { =0 => 9 | a = 1, { b = 2, [[~, 1] __integer_subtract__, b] .0 ^ } }, 2 f",
+        // nilary functions whose `^` has a non-nil value flowing in (server loops)
+        "s = #{ !#'int { | =0 => 0 | ^ } }, p = @s, 2 p, 1 p, 0 p, !p",
+        "c = #{ 1 { | =0 => 0 | ^ } }",
+        "c = #{ 7 ^ }",
+        "c = #{ x = 3, x { | =0 => 0 | =n => n ^ } }",
     ]
     .iter()
     .enumerate()
